@@ -372,6 +372,18 @@ func firstDiff(a, b *pb.QuoteV4) string {
 
 func runC09(r *mc.Run) {
 	bases := c01Baselines()
+	{ // a third baseline with nothing variable in it: no auth data, no certificate chain (a bare chain header)
+		w := world.Honest("T")
+		p := w.Parts.Clone()
+		p.Auth, p.Chain = []byte{}, []byte{}
+		w.Parts = p
+		raw, reg := p.Bytes()
+		if rp, err := ref.ParseQuote(raw); err == nil {
+			bases = append(bases, &c01base{name: "auth0+chain0", w: w, raw: raw, reg: reg, p: rp})
+		} else {
+			r.HarnessError("C09: reference parser rejects the empty-chain baseline: %v", err)
+		}
+	}
 	// (a)(b)(c): truncations, size fields (+pairs), trailing bytes.
 	for _, b := range bases {
 		cases := rawInputCases(b.name, b.raw, b.reg, true)
